@@ -196,9 +196,18 @@ async fn child_async(seed: u64, n: u64) -> std::result::Result<Value, String> {
     let (cuts, cut_findings) = super::wirepeers::c06_stream_cuts(addr, &certs).await?;
     stats.insert("stream_cuts", cuts);
     let cut_findings: Vec<Value> = cut_findings.into_iter().map(|(s, d)| json!({"sig": s, "detail": d})).collect();
+    // … and the same towards the consuming clients: a hand-written server finishes their streams mid-frame
+    let mut notes: Vec<String> = vec![];
+    match tokio::time::timeout(Duration::from_secs(90), super::wirepeers::c06_client_stream_cuts(&certs)).await {
+        Ok(Ok(n)) => {
+            stats.insert("client_streams_cut_mid_frame", n);
+        }
+        Ok(Err(e)) => notes.push(format!("client-side stream cuts: {}", e)),
+        Err(_) => notes.push("watchdog: client-side stream cuts did not finish in 90 s".into()),
+    }
     server.stop();
     let panics: Vec<Value> = repo_panics_since(mark).into_iter().map(|p| json!({"thread": p.thread, "location": p.location, "message": p.message})).collect();
-    Ok(json!({"stats": stats, "panics": panics, "findings": cut_findings}))
+    Ok(json!({"stats": stats, "panics": panics, "findings": cut_findings, "notes": notes}))
 }
 
 /// child mode
@@ -278,6 +287,9 @@ pub fn run(rep: &mut StageReport, tier: &str, seed: u64, exe: &str) {
                 let loc = p["location"].as_str().unwrap_or("");
                 let detail = format!("a consuming client panicked at {} on a hostile payload routed through the server: {}", loc, p["message"].as_str().unwrap_or(""));
                 rep.violation(Violation { signature: format!("C06/l3/consumer-panic/{}", crate::routersim::exec::normalise_location(loc)), detail, replay: String::new() });
+            }
+            for n in v.get("notes").and_then(|p| p.as_array()).cloned().unwrap_or_default() {
+                rep.inconclusive(n.as_str().unwrap_or("note"));
             }
             let extra = v.get("findings").and_then(|p| p.as_array()).cloned().unwrap_or_default();
             for f in &extra {
